@@ -190,6 +190,15 @@ def _nested_dict_get(d, path):
     return current
 
 
+def _nested_dict_merge(dst, src):
+    """Merge `src` into `dst`: namespaces (dicts) merge, values are replaced (later write wins)."""
+    for key, value in src.items():
+        if isinstance(value, dict) and isinstance(dst.get(key), dict):
+            _nested_dict_merge(dst[key], value)
+        else:
+            dst[key] = value
+
+
 @dataclass
 class State:
     """JAX interpreter that collects tagged state values.
@@ -289,12 +298,19 @@ class State:
                 )
 
                 body_fun = jex.core.jaxpr_as_fun(body_jaxpr)
+                # The body is interpreted under the namespaces that enclose the scan.
+                enclosing_namespaces = list(self.namespace_stack)
 
                 def new_body(carry, scanned_in):
                     in_carry = carry
                     all_values = const_vals + jtu.tree_leaves((in_carry, scanned_in))
                     # Apply state transformation to the body
-                    body_result, body_state = state(body_fun)(*all_values)
+                    body_interpreter = State(
+                        collected_state={}, namespace_stack=list(enclosing_namespaces)
+                    )
+                    body_result, body_state = body_interpreter.eval(
+                        body_fun, *all_values
+                    )
                     # Split the body result back into carry and scan parts
                     out_carry, out_scan = split_list(
                         jtu.tree_leaves(body_result), [num_carry]
@@ -311,9 +327,10 @@ class State:
                 )
 
                 # Merge vectorized scan states into collected state
-                # scan_states is already vectorized by scan - just merge it
-                for name, vectorized_values in scan_states.items():
-                    self.collected_state[name] = vectorized_values
+                # scan_states is already vectorized by scan; its paths are absolute
+                # (they include the enclosing namespaces), so merge from the root,
+                # keeping what was saved before under the same namespaces.
+                _nested_dict_merge(self.collected_state, scan_states)
 
                 outvals = jtu.tree_leaves(
                     (flat_carry_out, scanned_out),
